@@ -71,7 +71,60 @@ def run(ctx):
     # ---- name match and what is pushed
     rule = 'name-match'
     pushes = [c for c in b.calls() if c.callee.endswith('Vec::push') and 'result' in fmt_sym(b, F.sym_operand(c.args[0]))]
-    if not pushes:
+    # the same selection written as an iterator pipeline: references.iter().filter(pred).for_each(|r| result.push(r.target_node.clone()))
+    piped = 0
+    for fe in [c for c in b.calls() if c.callee.endswith('Iterator::for_each') and len(c.args) == 2]:
+        sink = F.sym_operand(fe.args[1]); srcsym = F.sym_operand(fe.args[0])
+        if not (sink[0] == 'agg' and sink[1] == 'closure'):
+            continue
+        sb_ = db.body(sink[2])
+        if sb_ is None:
+            continue
+        Fs = ctx.facts(sb_)
+        ps = [c for c in sb_.calls() if c.callee.endswith('Vec::push')]
+        if not ps:
+            continue
+        piped += 1; n += 1
+        key = 'pipeline#%d' % (piped - 1)
+        envs = [fmt_sym(b, x) for x in sink[4]]
+        val = fmt_sym(sb_, Fs.sym_operand(ps[0].args[1]))
+        into_result = len(ps) == 1 and any(re.match(r'^&result\(_\d+\)$', x) for x in envs) and re.match(r'^&result\(_1[\d.]*\)$', fmt_sym(sb_, Fs.sym_operand(ps[0].args[0])))
+        if not into_result or not re.match(r'^Clone::clone\(&\(\*+\w+\(_2\)\)+\.target_node\)$', val):
+            r.fail(rule, key + ':value', 'the pipeline adds %s to %s, not the target of the reference being examined to the result' % (val[:80], fmt_sym(sb_, Fs.sym_operand(ps[0].args[0]))[:40]), loc=ps[0].loc); continue
+        if not (srcsym[0] == 'call' and srcsym[1].endswith('Iterator::filter') and len(srcsym[2]) == 2 and srcsym[2][1][0] == 'agg' and srcsym[2][1][1] == 'closure'
+                and re.match(r'^(slice::iter|IntoIterator::into_iter)\(&?.*references\(_\d+\).*\)$', fmt_sym(b, srcsym[2][0]))):
+            r.fail(rule, key, 'targets are added by a pipeline that is not references.iter().filter(<name test>): %s' % fmt_sym(b, srcsym)[:120], loc=fe.loc); continue
+        pred = srcsym[2][1]
+        pb_ = db.body(pred[2])
+        outs = bool_fn_outcomes(ctx, pred[2], True) if pb_ is not None else None
+        if not outs:
+            r.lost(rule, key + ':predicate', 'filter predicate not analysable'); continue
+        penv = [fmt_sym(b, x) for x in pred[4]]
+        def cap(name):
+            # what the captured variable `name` of the predicate stands for in follow_relative_path
+            for nm, pl in pb_.vars:
+                if nm == name and pl[0] == 1:
+                    ks = [t for t in pl[1] if t.startswith('.') and t[1:].isdigit()]
+                    if ks and int(ks[0][1:]) < len(penv):
+                        return penv[int(ks[0][1:])]
+            return None
+        ctn = cap('compare_target_name')
+        ctn_ok = ctn is not None and re.match(r'^&?Not\(QualifiedName::is_null\(&%s\.target_name\)\)$' % E, ctn)
+        elem_ok = any(re.match(r'^&?&?%s$' % E, x) or re.match(r'^&?relative_path\(_%d\)$' % elem[0], x) for x in penv)
+        bad = []
+        for conj in outs:
+            t = [fmt_lit(pb_, l) for l in conj]
+            same_ref = any(re.match(r'^AddressSpace::find_node\(&address_space\(_1[\d.]*\), &\(\*+reference\(_2\)\)+\.target_node\) is Some$', x) for x in t)
+            no_name = ctn_ok and any(re.match(r'^compare_target_name\(_1[\d.]*\) == False$', x) for x in t)
+            no_name = no_name or any(re.match(r'^QualifiedName::is_null\(&\(?\*?relative_path\(_1[\d.]*\)\)?\.target_name\) == True$', x) for x in t)
+            name_eq = elem_ok and any(re.search(r'^NodeBase::browse_name\(.*find_node\(.*\(_2\)\)+\.target_node\)@Some\.0\)\) eq \(?\*?relative_path\(_1[\d.]*\)\)?\.target_name$', x) for x in t)
+            if not (no_name or name_eq):
+                bad.append(t)
+        if bad:
+            r.fail(rule, key, 'a target can pass the filter without its browse name having been compared with the element\'s target name (under [%s])' % ', '.join(bad[0])[:200], loc=fe.loc)
+        else:
+            r.ok(rule, key, 'a target passes the filter only when no target name is given or its node\'s browse name equals the element\'s target name', loc=fe.loc)
+    if not pushes and not piped:
         r.lost(rule, 'push', 'no result.push in follow_relative_path')
     for i, c in enumerate(pushes):
         n += 1
@@ -152,7 +205,7 @@ def every_current_node_followed(ctx, rule='every-node-followed'):
     ok = None
     if fe:
         ok = 'matching_nodes.drain(..).for_each(..): every node of the level is visited'
-        bodies = db.find_bodies(r'^' + re.escape(FNP) + r'::\{closure#\d+\}$')
+        bodies = db.find_bodies(r'^' + re.escape(FNP) + r'(::\{closure#\d+\})*$')
     else:
         # a loop: find the next() calls whose iterator derives from the drain
         nexts = [c for c in b.calls() if c.callee.endswith('Iterator::next')]
